@@ -64,6 +64,7 @@ func (r *request) Execute(next bool) {
 // lock before using
 func (r *request) executeInternal(next bool) {
 	for !r.done {
+		vhook("exec.iter", r, next)
 		if next {
 			r.host = r.qp.Next()
 		}
@@ -137,6 +138,7 @@ func (r *request) OnClose(_ error) {
 	r.mu.Lock()
 	defer r.mu.Unlock()
 
+	vhook("onclose", r)
 	if r.checkIdempotent() {
 		r.executeInternal(true)
 	} else {
@@ -227,6 +229,7 @@ func (r *request) handleErrorResult(raw *frame.RawFrame) (retried bool) {
 			// Do nothing, return the error
 		}
 
+		vhook("result", r, int(decision), r.retryCount)
 		switch decision {
 		case RetryNext:
 			r.retryCount++
